@@ -25,6 +25,7 @@ EXPORTS = {"A": {b"nitro_verif_fa": lambda x: x + 1.0, b"nitro_verif_common": la
            "SELF": {b"nitro_verif_self_fn": lambda x: x - 1.0}}
 SYMS = [b"nitro_verif_fa", b"nitro_verif_fb", b"nitro_verif_common", b"nitro_verif_self_fn", b"nitro_verif_missing"]
 MISSING = b"/nonexistent/libnitro_verif_missing.so"
+MISSING_BARE = b"nitro_verif_missing_bare"
 
 
 def gen_dl(rng, n):
@@ -32,7 +33,7 @@ def gen_dl(rng, n):
     for _ in range(n):
         r = rng.random()
         if r < 0.22:
-            ops.append(("OPEN", rng.randrange(4), rng.choice(["A", "A", "B", "B", "SELF", "MISSING"])))
+            ops.append(("OPEN", rng.randrange(4), rng.choice(["A", "A", "B", "B", "SELF", "MISSING", "MISSINGBARE"])))
         elif r < 0.30:
             ops.append(("COPYDL", rng.randrange(4), rng.randrange(4)))
         elif r < 0.34:
@@ -60,7 +61,8 @@ def dl_script(cid, ops):
     L = ["CASE " + cid]
     for op in ops:
         if op[0] == "OPEN":
-            L.append("OPEN %d %s" % (op[1], hx(MISSING) if op[2] == "MISSING" else op[2]))
+            L.append("OPEN %d %s" % (op[1], hx(MISSING) if op[2] == "MISSING" else
+                                     (hx(MISSING_BARE) if op[2] == "MISSINGBARE" else op[2])))
         elif op[0] == "LOAD":
             L.append("LOAD %d %d %s" % (op[1], op[2], hx(op[3])))
         elif op[0] == "CALL":
@@ -151,7 +153,11 @@ def judge_dl(ops, lines, S, case):
                 fail("open-did-not-call-dlopen-once", what)
                 return
             h = int(opens[0][3])
-            if lib == "MISSING":
+            if lib in ("MISSING", "MISSINGBARE"):
+                want_name = hx(MISSING if lib == "MISSING" else MISSING_BARE)
+                if opens[0][2] != want_name:
+                    fail("dlopen-called-with-another-name", "%s: dlopen(%s)" % (what, opens[0][2][:80]))
+                    return
                 errs = [e for e in ev if e[1] == "dlerror"]
                 if not res.startswith("O !dl::exception "):
                     fail("missing-library-did-not-raise-dl-exception", "%s -> %s" % (what, res[:120]))
